@@ -106,6 +106,8 @@ def main(argv):
         return {'np.geterr()': dict(np.geterr()), 'np.geterrcall()': repr(np.geterrcall()), 'np.get_printoptions()': {k: repr(v) for k, v in np.get_printoptions().items()},
                 'sys.getrecursionlimit()': _sys.getrecursionlimit()}
     state0 = process_state()
+    import warnings as _warnings
+    filters0 = [(f[0], repr(f[1]), f[2].__name__, repr(f[3]), f[4]) for f in _warnings.filters]
     try:
         if replayfile:
             case = json.load(open(replayfile))
@@ -135,6 +137,17 @@ def main(argv):
     finally:
         cov.stop()
     state1 = process_state()
+    filters1 = [(f[0], repr(f[1]), f[2].__name__, repr(f[3]), f[4]) for f in _warnings.filters]
+    if filters1 != filters0 and crashed is None:
+        # the warnings filters: the harness changes them inside catch_warnings() only.  Reported: a blanket filter (the
+        # simplefilter() form: no message, no module) that was not there before, or a filter that has gone; filters with a message /
+        # module pattern are what lazily imported third-party modules install for themselves and are left alone
+        added = [f for f in filters1 if f not in filters0 and f[1] == 'None' and f[3] == 'None']
+        removed = [f for f in filters0 if f not in filters1]
+        if os.environ.get('VERIF_FILTER_PROBE'):
+            print('FILTER-PROBE', [f for f in filters1 if f not in filters0], removed, file=sys.stderr)
+        if added or removed:
+            ctx.violation('process-wide-state-changed', f'after the workload, the process-wide warnings filters differ from what they were before it: added {added[:3]}, removed {removed[:3]} - the next call in this process sees other warnings', {'changed': {'warnings.filters': [repr(added[:3]), repr(removed[:3])]}})
     if state1 != state0 and crashed is None:
         changed = {k: (state0[k], state1[k]) for k in state0 if state0[k] != state1[k]}
         ctx.violation('process-wide-state-changed', f'after the workload, process-wide settings differ from what they were before it: {changed} - the next call in this process behaves differently', {'changed': {k: [repr(a), repr(b)] for k, (a, b) in changed.items()}})
